@@ -61,6 +61,13 @@ def run(ctx):
                 for plan in policies(rr, sc, 1) + [["cfr.max=7"] if kc == "cfr" else ["pread.max=7", "read.max=7"]]:
                     n += 1
                     jobs.append((sc, dict(run_id="d%d" % n, cell=1, block_bytes=bs, workers=2, plan=plan)))
+    # many blocks in flight on several workers, user-space fallback at explicit offsets (no shared cursor may be involved)
+    for size, bs, w in ((70000, 1000, 4), (200000, 4096, 8), (33000, 500, 16)):
+        for rep in range(3 if quick else 10):
+            sc = dataprop.dense("PBU-%d-%d-w%d-r%d" % (size, bs, w, rep), size, bs, "parblock", reflink="never", kcopy="uspace")
+            sc["fallback_errno"] = ["ENOSYS", "EXDEV", "EPERM"][rep % 3]
+            n += 1
+            jobs.append((sc, dict(run_id="u%d" % n, cell=1, block_bytes=bs, workers=w, plan=None if rep else ["pread.max=300"])))
     # EINTR on read(2) in the user-space cursor loop (strace injects it; the hook forces the fallback)
     for k in (1, 2, 3):
         sc = dataprop.dense("EINTR-%d" % k, 3000, 1000, "parfile", reflink="never", kcopy="uspace")
